@@ -229,6 +229,8 @@ def rule_forwarding_and_keying(rep, build, tier):
             check_ctor(rep, m, f, cls, lay, init)
         if meth == "set_key":
             check_set_key(rep, m, f, cls, R)
+        if meth in ("set_key", "C"):
+            check_key_block_sizes(rep, m, f, cls, R, lay)
     rep.floor("C17.D2", 60)
     rep.floor("C17.D3", 20)
 
@@ -286,6 +288,41 @@ def _ranges(xs):
     if start is not None:
         out.append((start, prev))
     return ",".join("%d-%d" % r if r[0] != r[1] else str(r[0]) for r in out)
+
+
+def check_key_block_sizes(rep, m, f, cls, R, lay):
+    """every block copy / fill that starts at the object's key member covers
+    exactly that member (constructor, set_key full-length and zero-length
+    branches must agree on one size: sizeof(key))"""
+    sn = effects.Layouts.pointee_struct(f.param_ty[0])
+    if sn is None or sn not in m.structs:
+        return
+    members = {}
+    for (off, size, key, ty) in lay.leaves(sn):
+        nm = lay.member_name(sn, off)
+        if nm.split(".")[-1] in ("key",) and not ty.endswith("*"):
+            members[off] = (size, nm)
+    if not members:
+        return
+    for i in f.insts():
+        if i.op != "call" or not (ptr.is_memcpy(i) or ptr.is_memset(i)):
+            continue
+        pv = R.resolve(i.ops[0])
+        if pv.single() != ("param", f.params[0]) or pv.offset not in members or pv.variable:
+            continue
+        n = ir.const_int(i.ops[2])
+        size, nm = members[pv.offset]
+        inst = "%s::%s:key-size" % (cls, demangle_method(f.name)[1])
+        if n is None:
+            continue
+        if n < size:
+            rep.violation("C17.D3", inst, i.where(),
+                          "%s::%s %s %d byte(s) of the %d-byte key member %s, so this keying path leaves %d byte(s) of a "
+                          "previous key in place / differs from the other keying paths" % (
+                              cls, demangle_method(f.name)[1], "clears" if ptr.is_memset(i) else "copies", n, size, nm,
+                              abs(size - n)))
+        else:
+            rep.instance("C17.D3", 1, {"method": "%s::%s" % (cls, demangle_method(f.name)[1]), "key_bytes": n})
 
 
 def check_set_key(rep, m, f, cls, R):
